@@ -1244,6 +1244,8 @@ VmTrap vm_core_execute(VmState *vm) {
                                   (long long)idx64);
             }
             uint32_t idx = (uint32_t)idx64;
+            /* The array gives up its reference to the removed element */
+            vm_release(&vm->heap, vm_array_get(arr.as.array, idx));
             vm_array_remove(arr.as.array, idx);
             stack_push(vm, arr);
             break;
